@@ -18,16 +18,18 @@
    theorems), and for every designed string that fits the arrays the records written by the designer
    satisfy the hypotheses of the finish-side theorem - so finishing against the compiled component
    succeeds (EndToEnd), and by C06_concatenations its result has every strand and super-sequence the
-   concatenation of its base sequences' values.  The hypothesis of these theorems that the record names
-   are distinct is itself proved (C06_record_names_distinct) for programs whose sequence and structure names contain
-   no '*' - the statement grammar yields [\w-]+ -, giving the ..._unconditional forms.
+   concatenation of its base sequences' values.  Hypothesis: the record names are distinct (no sequence
+   name ends in '*'; a structure and a sequence never share a name since the D13 repair).
    The composition holds in the structure layout as well (C06_compiled_design_finishes_struct), and for whole
    nested systems the designer side is proved: what the compiler writes loads and gets arrays or the report
-   (C06_compiled_system_designs).  NOT proved: the finish side through nested systems and the saved state (.save);
-   exercised end to end (in-process, through the three command-line tools and through design()). *)
+   (C06_compiled_system_designs), and so is the finish side: for every designed string that fits the arrays of a compiled
+   system, finishing the whole system object against the records succeeds (C06_compiled_system_end_to_end; the component
+   lemmas hold for a component's lines inside any larger document; hypothesis: distinct record names).  NOT modelled: the
+   saved state (.save, a pickle) through which the real finisher receives the object; exercised end to end (in-process,
+   through the three command-line tools and through design()). *)
 From Coq Require Import List String Ascii Arith Bool.
 From PC Require Import Base.Codes Comp.Syntax Comp.Compile Comp.Denote Comp.EmitProofs Sys.System Finish.Apply Finish.ApplyProofs Design.ShapeProofs Design.ComposeProofs
-  Design.Designer Design.TemplateProofs Design.DGraph Design.DenoteGraph Design.DenoteTie Design.DenoteSat Design.Results Design.ResultsProofs Design.Loaded Design.LoadedStruct Design.CrossProofs Design.EndToEnd Base.Sexp Comp.WfPil Comp.NameProofs Sys.System Sys.SysWfPil Sys.SysDesign Design.RecNames Design.EndToEndNames.
+  Design.Designer Design.TemplateProofs Design.DGraph Design.DenoteGraph Design.DenoteTie Design.DenoteSat Design.Results Design.ResultsProofs Design.Loaded Design.LoadedStruct Design.CrossProofs Design.EndToEnd Base.Sexp Comp.WfPil Comp.NameProofs Sys.System Sys.DesSys Sys.SysWfPil Sys.SysDesign Design.RecNames Design.EndToEndNames Design.SysFinish.
 Import ListNotations.
 
 Theorem C06_finished_bases_consistent_partial : forall t prefix bs vals, base_values t prefix bs = OK vals ->
@@ -146,7 +148,7 @@ Theorem C06_strand_flattening : forall c, WF c -> forall p, load_spec (emit_comp
   forall n t, In (n, t) (c_strands c) ->
   exists l, In (c_prefix c +++ n, (classify p (emit_items c (s_seqs (t_sup t))), l, t_dummy t)) (p_strands p) /\
             flat_map (ref_c p (ctbl p)) (classify p (emit_items c (s_seqs (t_sup t)))) = map (cvn p) (flatB c (s_base (t_sup t))).
-Proof. exact strand_flattening. Qed.
+Proof. exact strand_flattening_alone. Qed.
 Print Assumptions C06_strand_flattening.
 
 (* structure-oriented layout, no per-case hypothesis: every loaded and seeded document, every string that fits its arrays *)
@@ -227,3 +229,24 @@ Theorem C06_compiled_component_end_to_end_unconditional : forall ctr prefix d bo
          exists a recs, process_results p lay nts = OK a /\ output_records p a = OK recs /\ exists f, apply_comp (table_of recs) c = OK f).
 Proof. exact compiled_component_end_to_end_names. Qed.
 Print Assumptions C06_compiled_component_end_to_end_unconditional.
+
+(* whole nested systems, both sides composed: compile -> designer -> any fitting string -> records -> the whole system finishes *)
+Theorem C06_system_design_finishes : forall o p lay g e w s nts,
+  sys_wf 12 o -> load_spec (emit_obj 12 o) pspec0 = OK p -> seed p false = OK (lay, g) -> get_constraints p false = DOk e w s -> fits nts e w ->
+  exists a recs, process_results p lay nts = OK a /\ output_records p a = OK recs /\
+    (NoDup (map fst recs) -> exists f, apply_obj 12 (table_of recs) o = OK f).
+Proof. exact system_design_finishes. Qed.
+Print Assumptions C06_system_design_finishes.
+
+Theorem C06_compiled_system_end_to_end : forall fs includes ctr basename args lines ctr',
+  compile_top fs includes ctr basename args [] = OK (lines, ctr') ->
+  (forall o, load_file fs includes 12 ctr basename args "" "." = OK (o, ctr') -> names_ok 12 o) ->
+  (forall n k len, In (PSeq n k len) lines -> valid_template k = true) ->
+  exists o p lay g, load_file fs includes 12 ctr basename args "" "." = OK (o, ctr') /\ load_spec lines pspec0 = OK p /\ seed p false = OK (lay, g) /\
+    (get_constraints p false = DOver \/
+     exists e w s, get_constraints p false = DOk e w s /\
+       forall nts, fits nts e w ->
+         exists a recs, process_results p lay nts = OK a /\ output_records p a = OK recs /\
+           (NoDup (map fst recs) -> exists f, apply_obj 12 (table_of recs) o = OK f)).
+Proof. exact compiled_system_end_to_end. Qed.
+Print Assumptions C06_compiled_system_end_to_end.
